@@ -42,6 +42,9 @@ class GatewaySim:
         else:
             self.tun = TCPTunnel(self.xknx, gateway_ip=GW[0], gateway_port=GW[1], cemi_received_callback=self._up,
                                  auto_reconnect=auto_reconnect, auto_reconnect_wait=auto_reconnect_wait)
+        # several simulated gateways may share one loop (two tunnels in one process): each answers what its own tunnel sent
+        prev = getattr(loop, "on_send", None)
+        self._prev_on_send = prev if isinstance(getattr(prev, "__self__", None), GatewaySim) else None
         loop.on_send = self._on_send
         self.on_client_frame = None  # optional hook(body) -> True if handled
 
@@ -128,6 +131,8 @@ class GatewaySim:
         )
         from xknx.telegram import IndividualAddress
 
+        if self._prev_on_send is not None and tr is not getattr(self.tun.transport, "transport", None):
+            return self._prev_on_send(tr, data, addr)
         frame, _ = KNXIPFrame.from_knx(data)
         b = frame.body
         self.log("tx", **self.describe(b))
@@ -176,6 +181,8 @@ class GatewaySim:
                 self.deliver(ack())
             elif r == "late":
                 self.deliver(ack(), delay=self.late)
+            elif r == "slow":           # inside the time the client waits
+                self.deliver(ack(), delay=0.3)
             elif r == "dup":
                 self.deliver(ack())
                 self.deliver(ack())
@@ -184,6 +191,11 @@ class GatewaySim:
                     self.deliver(ack(seq=self.last_tun_seq))
             elif r == "err":
                 self.deliver(ack(code=ErrorCode.E_CONNECTION_ID))
+            elif r == "errunk":         # an error status outside the table of codes the library knows: still not a confirmation
+                raw = bytearray(KNXIPFrame.init_from_body(ack()).to_knx())
+                raw[-1] = 0x30 if s % 2 else 0xFF
+                self.log("rx", kind="TunnellingAck", chan=c, seq=s, st=raw[-1])
+                self.deliver_raw(bytes(raw))
             elif r == "wrongchan":
                 self.deliver(ack(chan=99))
             elif r == "wrongseq":
